@@ -231,7 +231,7 @@ pub fn main(args: Args) {
         report(&run, i, o);
         run.finish(&[]);
     }
-    let n = args.budget("cases", 40, 400);
+    let n = args.budget("cases", 120, 1000);
     let seed = args.seed;
     let run2 = run.clone();
     par_cases(n, args.jobs, STACK_64M, move |i| run_case(seed, i, cycles), move |i, r| {
